@@ -3,6 +3,14 @@
 ALL = ['C%02d' % i for i in range(1, 21)]
 
 CHECKS = [
+ {"property_id": "C01", "category": "other", "design_ref": "DESIGN.md §4 C01",
+  "technique": "static analysis: continuation-graph reachability plus path-sensitive def-use provenance on every instantiated path; structural check of matching predicates",
+  "text": "Necessary conditions of a truthful publish success decided on every feasible inlined path of the QoS 1/2 instantiations: success-capable completions exist only on the decoded+admitted edge of on_puback / on_pubcomp / failing on_pubrec; the reason code and properties handed to the handler, the span given to the decoder, the (code,id) registered with the waiter registry and the arguments of encode_publish are traced to their sources; reply matching constrains both control code and packet id and the router passes this packet's code/id/span. Not decided: stale acknowledgements from earlier exchanges (history), broker-side receipt.",
+  "note": "Def-use through single/multi-assignment locals, structured bindings, std::get projections and helper parameters; other value-forwarding idioms give exit 2 or a reported mismatch rather than silence."},
+ {"property_id": "C14", "category": "other", "design_ref": "DESIGN.md §4 C14",
+  "technique": "static analysis: one table-driven rule set over the sibling classes subscribe_op/unsubscribe_op (reachability + def-use provenance)",
+  "text": "For both siblings, on every feasible inlined path: success-capable completion only on the decoded ∧ (admitted count == requested count) edge of on_(un)suback; the reason codes handed over are to_reason_codes(decoded codes), which keeps exactly the codes admitted by to_reason_code<suback|unsuback>, in order; the count operand is topics.size() of the request (single writer); properties, decoder span, awaited (code,id) and encoder arguments traced to their sources. Not decided: stale acknowledgements (history).",
+  "note": "Same assumptions as C01."},
  {"property_id": "C03", "category": "other", "design_ref": "DESIGN.md §4 C03",
   "technique": "static analysis: continuation-graph extraction from instantiated operator() overloads, graph unreachability and path-sensitive def-use",
   "text": "The QoS 2 sender's continuation graph is extracted from every instantiation; decided on every feasible path: no PUBLISH state or publish helper is reachable from the states after a successful PUBREC; the PUBREL stage is entered only on the decoded/admitted/non-failing edge with a packet built by encode_pubrel; a re-sent PUBLISH goes through set_dup() exactly when its earlier write had completed; the first transmission is encoded with dup_e::no; re-sends reuse the stored packet object; set_dup's only write is byte0 |= 0x08; PUBREL is always prioritized.",
